@@ -4,7 +4,7 @@ playing time and judged by the same observer (T)."""
 from props.tapecommon import *
 
 PID = "C12"
-KINDS = {"waveform", "wholetape", "frozen"}
+KINDS = {"waveform", "wholetape", "frozen", "taperr"}
 
 
 def mc_runs(quick):
